@@ -1,6 +1,7 @@
 (** C18 — Microsecond conversions round to nearest and Timers honour
     Reset/Stop.  Statements only; every proof is [exact <lemma>]. *)
-From Shk Require Import Base.Prelude Model.Timeutil Proofs.TimeutilProofs Corr.C18 Proofs.TimerRefine.
+From Shk Require Import Base.Prelude Model.Timeutil Model.Ticker Proofs.TimeutilProofs Corr.C18 Proofs.TimerRefine Proofs.TickerProofs.
+Open Scope list_scope.
 Open Scope Z_scope.
 
 (** ToUnixMicros = the nearest number of microseconds, half up: for every
@@ -61,6 +62,41 @@ Proof. exact none_after_stop. Qed.
 Theorem c18_timer_refines_one_shot : forall ops, aspec_run AIdle ops (drive t_init ops) = true.
 Proof. exact timer_refines_spec. Qed.
 
+(** No run of the Timer, by whatever sequence of labels, ends in an operation
+    that blocks (the run-level form of [c18_reset_never_blocks]). *)
+Theorem c18_no_run_blocks : forall ls m, run ls <> RBlocks m.
+Proof. exact run_never_blocks. Qed.
+
+(** The user of the Timer in pkg/cmd, the collector's flush ticker
+    (Model/Ticker.v: NewTimer; Reset(P); per select event: time passes / the
+    runtime fires / `case <-t.C: t.Read = true; t.Reset(P); flush` / any other
+    case), for every period and every sequence of loop events: its Reset never
+    blocks; the flushes are at least one period apart, the first one at least
+    one period after the start, so there are at most now/P of them ... *)
+Theorem c18_ticker_never_blocks : forall P es m, run (ticker_labels P es) <> RBlocks m.
+Proof. exact ticker_never_blocks. Qed.
+
+Theorem c18_ticker_flushes_spaced : forall P es s os,
+  run (ticker_labels P es) = RDone s os ->
+  spaced P 0 (recv_times os) /\ P * Z.of_nat (length (recv_times os)) <= now s.
+Proof. exact ticker_flushes_spaced. Qed.
+
+(** ... and the next flush is never lost: once a period has elapsed since the
+    last (re-)arming the flush event is enabled — at once when the tick is
+    already in the channel, otherwise after the runtime's fire — it delivers
+    exactly one receive, at the current instant, and re-arms without blocking. *)
+Theorem c18_ticker_flush_available : forall P es s os,
+  run (ticker_labels P es) = RDone s os -> g_reset_at s + P <= now s ->
+  exists pre s' os', (pre = [] \/ pre = [CFire]) /\
+    exec s (flat_map (cev_labels P) (pre ++ [CFlush])) = Some (s', os') /\
+    recv_times os' = [now s].
+Proof. exact ticker_flush_available. Qed.
+
+(** The executable spacing test of the correspondence cases is the spacing
+    predicate of the theorem. *)
+Theorem c18_spacedb_is_spaced : forall P ts last, spacedb P last ts = true <-> spaced P last ts.
+Proof. exact spacedb_spec. Qed.
+
 (** Non-vacuity: reachable states with a fired, a consumed and a pooled timer. *)
 Example c18_nonvacuous :
   exists os, run [LReset 5 None; LTick 7; LFire; LRecv; LReset 3 None; LStop; LReset 2 (Some 0%nat); LTick 2; LFire] = RDone
@@ -71,3 +107,11 @@ Proof. eexists. vm_compute. reflexivity. Qed.
 Example c18_nonvacuous_micros :
   to_micros (0, 999999500) = 1000000 /\ to_micros (-1, 999999499) = -1 /\ to_micros (-1, 500) = -999999.
 Proof. vm_compute. repeat split. Qed.
+
+(** Non-vacuity of the ticker theorems: a run of the loop with three flushes,
+    one of them late, other events in between. *)
+Example c18_ticker_nonvacuous :
+  exists s os, run (ticker_labels 10 [CTime 4; COther; CTime 6; CFire; CFlush; CTime 25; COther; CFire; CTime 3; CFlush;
+                                      CTime 10; CFire; CFlush; CTime 2]) = RDone s os /\
+               recv_times os = [10; 38; 48] /\ now s = 50.
+Proof. eexists; eexists. vm_compute. repeat split. Qed.
